@@ -249,6 +249,8 @@ fn hist_main(plan: &Value, slot: Arc<Mutex<Option<HistRun>>>) {
     // with huge occurrence counts are only fed to the bucketing strategies
     let ws = !raw.iter().flatten().any(|v| ju(v, "n", 0) > 200_000 || ja(v, "obs").iter().any(|o| ju(o, "n", 0) > 200_000));
     let run = match ty.as_str() {
+        "u64" if jb(plan, "dimensioned", false) => run_typed::<metrique_writer::value::WithDimensions<u64, 1>>(raw.iter().map(|t| t.iter().map(|v| metrique_writer::value::WithDimensions::new(ju(v, "v", 0), "Operation", "GetItem")).collect()).collect(), order, split, ws),
+        "dur_ms" if jb(plan, "dimensioned", false) => run_typed::<metrique_writer::value::WithDimensions<Duration, 1>>(raw.iter().map(|t| t.iter().map(|v| metrique_writer::value::WithDimensions::new(Duration::from_nanos(ju(v, "v", 0)), "Operation", "GetItem")).collect()).collect(), order, split, ws),
         "u64" => run_typed::<u64>(raw.iter().map(|t| t.iter().map(|v| ju(v, "v", 0)).collect()).collect(), order, split, ws),
         "dur_ms" => run_typed::<Duration>(raw.iter().map(|t| t.iter().map(|v| Duration::from_nanos(ju(v, "v", 0))).collect()).collect(), order, split, ws),
         "dur_us" => run_typed::<AsMicroseconds<Duration>>(raw.iter().map(|t| t.iter().map(|v| Duration::from_nanos(ju(v, "v", 0)).into()).collect()).collect(), order, split, ws),
@@ -598,7 +600,10 @@ pub fn gen_c11(rng: &mut Rng, tier: Tier) -> Value {
     }
     let total: u64 = threads.iter().map(|t| t.len() as u64).sum();
     let sched = gen_sched(rng, &SchedOpts { est_choices: 10 + 2 * total, threads: nthreads, jump_max_ns: 0, stall_clock_max_ns: 0, max_steps: if wide { 400_000 } else { 20_000 } });
-    json!({"sched": sched, "wide": wide, "ty": ty, "threads": threads, "order_seed": rng.next_u64() >> 1, "split": rng.below(total + 1), "classes": classes.into_iter().collect::<Vec<_>>()})
+    // a third of the plain-integer / duration plans: the recorded value type attaches a dimension of its own to every
+    // value (`WithDimensions<T, 1>`): the histogram counts the values all the same
+    let dimensioned = matches!(ty, "u64" | "dur_ms") && mix(ju(&sched, "seed", 0), 0xd1e) % 3 == 0;
+    json!({"sched": sched, "wide": wide, "dimensioned": dimensioned, "ty": ty, "threads": threads, "order_seed": rng.next_u64() >> 1, "split": rng.below(total + 1), "classes": classes.into_iter().collect::<Vec<_>>()})
 }
 
 pub struct Histograms;
@@ -640,6 +645,9 @@ impl Scenario for Histograms {
         }
         let ty = js(plan, "ty", "f64");
         r.probe(&format!("type_{ty}"), 1);
+        if jb(plan, "dimensioned", false) {
+            r.probe("value_type_with_dimensions", 1);
+        }
         if matches!(ty, "rep" | "multi") && ins.iter().flatten().any(|i| i.n == 0) {
             r.probe("repeated_with_zero_occurrences", 1);
         }
